@@ -60,3 +60,133 @@ CONTRACTS[(PATH, 'EngineLineCropper.reverse_line_mapping')].ladder = [
     dict(forward_mapping_shape0=a, sampled_values_shape0=a, sample_positions_shape0=b) for a, b in ((2, 1), (2, 2), (3, 2), (3, 3))]
 
 KEYS = [(PATH, 'EngineLineCropper.reverse_line_mapping')]
+LOCK_EXTRA = [(PATH, 'EngineLineCropper.get_crop_inputs')]
+
+
+# ------------------------------------------------------------------------------------------------------------------------------
+# Slice-mode obligations for EngineLineCropper.get_crop_inputs (property C10): the vertical band, the width, and the frame.
+# The statements of the real function that compute `vertical_map`, `scale` and `horizontal_sample_count` from the heights (their
+# backward slice over the top-level statements, plus every statement that may write through an alias of the `line_heights`
+# argument) are executed symbolically for ARBITRARY positive heights, configured scale, target height and arc-length table.
+# Dropped: the rotation, the interpolant, the normals (trigonometry / scipy - bounded tier only).
+import ast
+from pyvc import extract, sym, run as vrun
+from pyvc.engine import Exec, State
+from pyvc.arrays import select_concrete, Dim
+
+_INPUTS = {'self', 'np', 'math', 'target_height', 'mapping_x_to_line_pos', 'baseline'}
+_WANTED = ('vertical_map', 'scale', 'horizontal_sample_count')
+_ALIAS_FUNCS = {'asarray', 'asanyarray', 'atleast_1d', 'ravel', 'squeeze', 'reshape'}
+_ALIAS_METHODS = {'view', 'reshape', 'ravel', 'squeeze'}
+
+
+def _names(node):
+    return {n.id for n in ast.walk(node) if isinstance(n, ast.Name)}
+
+
+def _written(s):
+    """names bound or written through by a top-level statement"""
+    out = set()
+    for n in ast.walk(s):
+        if isinstance(n, (ast.Assign, ast.AugAssign, ast.AnnAssign)):
+            for t in (n.targets if isinstance(n, ast.Assign) else [n.target]):
+                for m in ast.walk(t):
+                    if isinstance(m, ast.Name):
+                        out.add(m.id)
+        elif isinstance(n, ast.Expr) and isinstance(n.value, ast.Call) and isinstance(n.value.func, ast.Attribute):
+            out |= _names(n.value.func.value)                 # x.sort(), x.fill(..): may write x
+    return out
+
+
+def _may_alias(value, aliases):
+    if isinstance(value, ast.Name):
+        return value.id in aliases
+    if isinstance(value, ast.Call):
+        f = value.func
+        if isinstance(f, ast.Attribute) and f.attr in _ALIAS_FUNCS and isinstance(f.value, ast.Name) and f.value.id in ('np', 'numpy') and value.args:
+            return _may_alias(value.args[0], aliases)
+        if isinstance(f, ast.Attribute) and f.attr in _ALIAS_METHODS:
+            return _may_alias(f.value, aliases)
+        return False
+    if isinstance(value, ast.Attribute) and value.attr == 'T':
+        return _may_alias(value.value, aliases)
+    if isinstance(value, ast.Subscript):
+        return _may_alias(value.value, aliases)
+    return False
+
+
+def band_statements(body):
+    aliases = {'line_heights'}
+    for s in body:                                           # names that may refer to the caller's heights object
+        if isinstance(s, ast.Assign) and _may_alias(s.value, aliases):
+            aliases |= {t.id for t in s.targets if isinstance(t, ast.Name)}
+    needed = set(_WANTED) | aliases
+    picked = []
+    for s in reversed(body):
+        if isinstance(s, ast.Return):
+            continue
+        if _written(s) & needed:
+            picked.insert(0, s)
+            needed |= _names(s) - _INPUTS
+    return picked
+
+
+def _band_report(root, variant):
+    sym.reset_names()
+    rep = vrun.FnReport((PATH, 'EngineLineCropper.get_crop_inputs[band,%s heights]' % variant))
+    try:
+        info = extract.get_function(PATH, 'EngineLineCropper.get_crop_inputs', root)
+        rep.info = info
+        stmts = band_statements(info.node.body)
+        for w in _WANTED:
+            if not any(w in _written(s) for s in stmts):
+                raise Unsupported('no top-level assignment to `%s` found' % w)
+        if variant == 'array':
+            lh = 'nd1:real'
+        else:
+            lh = lambda ex, st, n: [z3.Real('h_asc'), z3.Real('h_desc')]
+        con = Contract(params={'self': 'obj:EngineLineCropper', 'baseline': 'nd2:real', 'line_heights': lh, 'target_height': 'int'}, fields={'scale': 'real'})
+        ex = Exec(info, con, {}, name=rep.name)
+        st = State()
+        ex.bind_params(st, info.node)
+        tbl = fresh_name('buf_table')
+        m = z3.Int('table_len')
+        st.store[tbl] = fresh_array((m,), 'real', 'mapping_x_to_line_pos')
+        st.env['mapping_x_to_line_pos'] = NDRef(tbl, [Dim(None, 0, 1, m)])
+        orig = st.store[st.env['line_heights'].buf] if variant == 'array' else None
+        st.env['H'] = orig if variant == 'array' else ArrayVal((2,), lambda i: select_concrete(list(st.env['line_heights_0']), i, None), 'real')
+        ex.entry = st.copy()
+        for h in ('table_len >= 1', 'target_height >= 2', 'self.scale > 0', 'H[0] > 0', 'H[1] > 0', 'mapping_x_to_line_pos[table_len - 1] >= 0') + \
+                 (('len(line_heights) == 2',) if variant == 'array' else ()):
+            st.env['table_len'] = m
+            st.assume(ex.eval_spec(h, st, role='hyp'))
+        outs = ex.exec_block(stmts, st)
+        if not outs:
+            raise Unsupported('no feasible path through the band statements')
+        last = stmts[-1]
+        for s2, oc in outs:
+            s2.env['table_len'] = m
+            s2.env['H'] = st.env['H']
+            lo, hi = '(-(H[0] * self.scale))', '(H[1] * self.scale)'
+            ex.emit(s2, 'band#0', ex.eval_spec('vertical_map.shape[0] == target_height and vertical_map.shape[1] == 1', s2), last, 'one row offset per crop row')
+            ex.emit(s2, 'band#1', ex.eval_spec('vertical_map[0, 0] == %s' % lo, s2), last, 'first row: the (scaled) ascender height above the baseline')
+            ex.emit(s2, 'band#2', ex.eval_spec('vertical_map[target_height - 1, 0] == %s' % hi, s2), last, 'last row: the (scaled) descender height below the baseline')
+            ex.emit(s2, 'band#3', ex.eval_spec('forall(lambda r: implies(0 < r and r < target_height - 1, vertical_map[r, 0] == %s + r * ((%s - %s) / (target_height - 1))))' % (lo, hi, lo), s2),
+                    last, 'rows run linearly in between')
+            ex.emit(s2, 'band#4', ex.eval_spec('scale == target_height / (H[0] * self.scale + H[1] * self.scale)', s2), last, 'target height over scaled line height')
+            ex.emit(s2, 'band#5', ex.eval_spec('horizontal_sample_count == int(mapping_x_to_line_pos[table_len - 1] * (target_height / (H[0] * self.scale + H[1] * self.scale)))', s2),
+                    last, 'width = baseline length x target height / scaled line height (truncated)')
+            if variant == 'array':
+                s2.env['caller_heights'] = NDRef(st.env['line_heights_0'].buf, [Dim(None, 0, 1, 2)])
+                ex.emit(s2, 'frame#0', ex.eval_spec('caller_heights[0] == H[0] and caller_heights[1] == H[1]', s2), last, "the caller's heights array is left unchanged")
+        rep.vcs = ex.vcs
+        rep.assumed = sorted(set(ex.assumed + ['slice mode: rotation, interpolant and normals are dropped (bounded tier); the arc-length table is an arbitrary non-empty real array; '
+                                               'float rounding ignored (A2); a write through a reshape()/view of the heights is not tracked']))
+        rep.paths = len(outs)
+    except (KeyError, Unsupported) as e:
+        rep.unsupported = str(e)
+    return rep
+
+
+def reports(root):
+    return [_band_report(root, 'array'), _band_report(root, 'list')]
